@@ -290,6 +290,7 @@ def guard_monitor(ctx, info, res):
     held at the latest attempt; a refused attempt has no exit/rexit/renter/enter effects and leaves the
     framer's clocks and active frame alone.  Needs a benter recorder first in every frame."""
     prevpost = {}
+    clones = set((getattr(res, "alias", None) or {}).values())      # framers that ran as clones of moot framers
     for s in res.sends:
         if "seq_end" not in s:
             continue
@@ -307,6 +308,10 @@ def guard_monitor(ctx, info, res):
                         continue
                     last_attempt[(fr, f)] = (j, ok)
                     pending.pop(fr, None)
+                    if needs and fr in clones:
+                        ctx.hit("guard_attempts_in_clones")
+                        if any(n.get("neg") for n in needs):
+                            ctx.hit("negated_guard_attempts_in_clones")
                     if ok:
                         ctx.hit("attempts_admitted")
                     else:
